@@ -99,6 +99,11 @@ pub use crate::{
 mod macros;
 
 mod line_buffer;
+/// verif hook: probe over the private roll buffer.
+#[cfg(feature = "verif-hooks")]
+pub mod verif_linebuffer {
+    pub use crate::line_buffer::verif::{LineBufferProbe, ProbeBinary};
+}
 mod lines;
 mod searcher;
 mod sink;
